@@ -19,7 +19,17 @@ type vtClock4 struct{}
 
 func (vtClock4) Now() time.Time { return vt.Time("clock") }
 
-func vtT4(name string) *T4 { return &T4{DefaultInt32: vt.Int32(name + ".i32")} }
+func vtT4(name string) *T4 {
+	return &T4{DefaultInt32: vt.Int32(name + ".i32"), DefaultInt64: 7}
+}
+
+// vtProject4 is the read-mask projection used by the stream harness (mask nil or {default_int32}).
+func vtProject4(m *T4, masked bool) *T4 {
+	if m == nil || !masked {
+		return m
+	}
+	return &T4{DefaultInt32: m.DefaultInt32}
+}
 
 // A backpressured Value subscription with one writer: seed first (flagged, stored change time), then exactly one
 // event per successful write, in write order, carrying the returned value and the write time; none for failed writes.
@@ -130,8 +140,13 @@ func VT_C04_CollectionStream() {
 	}
 	c := NewCollection(opts...)
 	updatesOnly := vt.Choose("updatesOnly", 2) == 1
+	masked := vt.Choose("readMask", 2) == 1
+	ropts := []ReadOption{WithBackpressure(true), WithUpdatesOnly(updatesOnly)}
+	if masked {
+		ropts = append(ropts, WithReadPaths(&T4{}, "default_int32"))
+	}
 	ctx, cancel := context.WithCancel(context.Background())
-	ch := c.Pull(ctx, WithBackpressure(true), WithUpdatesOnly(updatesOnly))
+	ch := c.Pull(ctx, ropts...)
 	var events []*CollectionChange
 	got := make(chan struct{}, 16)
 	finished := make(chan struct{})
@@ -204,7 +219,7 @@ func VT_C04_CollectionStream() {
 			for j := range ids {
 				if ids[j] == s.Id {
 					found = true
-					vt.Assert(proto.Equal(s.NewValue, bodies[j]), "seed-carries-item-body")
+					vt.Assert(proto.Equal(s.NewValue, vtProject4(bodies[j], masked)), "seed-carries-item-body")
 				}
 			}
 			vt.Assert(found, "seed-id-is-an-initial-item")
@@ -215,16 +230,20 @@ func VT_C04_CollectionStream() {
 		e := events[k]
 		vt.Assert(e.Id == id, "event-id")
 		vt.Assert(vt.And(!e.SeedValue, !e.LastSeedValue), "update-not-flagged-seed")
+		var retT *T4
+		if ret != nil {
+			retT = ret.(*T4)
+		}
 		switch {
 		case kind == 2:
 			vt.Assert(e.ChangeType == types.ChangeType_REMOVE, "delete-is-REMOVE")
-			vt.Assert(vt.And(proto.Equal(e.OldValue, cur), e.NewValue == nil), "remove-carries-old-value-only")
+			vt.Assert(vt.And(proto.Equal(e.OldValue, vtProject4(cur, masked)), e.NewValue == nil), "remove-carries-old-value-only")
 		case cur == nil:
 			vt.Assert(e.ChangeType == types.ChangeType_ADD, "write-of-absent-id-is-ADD")
-			vt.Assert(vt.And(e.OldValue == nil, proto.Equal(e.NewValue, ret)), "add-carries-new-value-only")
+			vt.Assert(vt.And(e.OldValue == nil, proto.Equal(e.NewValue, vtProject4(retT, masked))), "add-carries-new-value-only")
 		default:
 			vt.Assert(e.ChangeType == types.ChangeType_UPDATE, "write-of-present-id-is-UPDATE")
-			vt.Assert(vt.And(proto.Equal(e.OldValue, cur), proto.Equal(e.NewValue, ret)), "update-carries-old-and-new-value")
+			vt.Assert(vt.And(proto.Equal(e.OldValue, vtProject4(cur, masked)), proto.Equal(e.NewValue, vtProject4(retT, masked))), "update-carries-old-and-new-value")
 		}
 		if wt != nil {
 			vt.Assert(e.ChangeTime.Equal(*wt), "event-carries-write-time")
